@@ -139,7 +139,7 @@ class C11(OptEngineBase):
     PROBES = [
         "angle_eq_pi_returned", "angle_near_minus_pi", "big_angle", "boxplus_norm_gt1_branch", "boxplus_norm_eq1", "w_negative", "w_zero",
         "wild_step_applied", "chain_ge_1e4", "via_disk", "optimize_se2", "optimize_se3", "optimize_nonfinite_skipped", "normalize_checked",
-        "chain_ge_1000", "auto_renormalized", "nonunit_constructed", "normalize_inplace", "unclaimed_nonunit_operand", "matrix_product", "matrix_inverse_product",
+        "chain_ge_1000", "auto_renormalized", "nonunit_constructed", "normalize_inplace", "unclaimed_nonunit_operand", "matrix_product", "matrix_inverse_product", "angle_given_as_float32",
     ]
 
     def sample_view(self, case):
@@ -175,6 +175,8 @@ class C11(OptEngineBase):
                 if rng.random() < 0.8 or (op == "optimize_chain" and heavy >= 40):
                     op = "compose"
             o = {"op": op, "t": t, "a": rng.randrange(POOL), "b": rng.randrange(POOL), "dst": rng.randrange(POOL)}
+            if op == "construct" and t == "SE2" and rng.random() < 0.3:
+                o["angle_type"] = rng.choice(["float32", "float32", "np_float64", "int"])
             if op == "construct_nonunit":
                 q = rand_quat(rng)
                 sc = rng.choice([0.5, 1.7, 1.0 + 1e-6, 10.0, 1e-3])
@@ -311,7 +313,19 @@ class C11(OptEngineBase):
                         x, y, th = xfl(op["v"])
                         if abs(th) > 1e3:
                             res.probe("big_angle")
-                        r = PoseSE2([x, y], th)
+                        typ = op.get("angle_type")
+                        if typ == "float32":
+                            th32 = np.float32(th)
+                            th = float(th32)  # the exact value of the single-precision number handed in
+                            res.probe("angle_given_as_float32")
+                            r = PoseSE2([x, y], th32)
+                        elif typ == "np_float64":
+                            r = PoseSE2(np.array([x, y]), np.float64(th))
+                        elif typ == "int":
+                            th = float(int(th) % 1000)
+                            r = PoseSE2([x, y], int(th))
+                        else:
+                            r = PoseSE2([x, y], th)
                         tol = 8 * EPS * (abs(th) + 2 * math.pi)
                         ok = check2(i, r, Fraction(th), tol, None, None, "PoseSE2(%r)" % th)
                         E, B = Fraction(th), tol
